@@ -8,6 +8,7 @@ INVARIANT NoEarlyWrite
 INVARIANT AttachLast
 INVARIANT FactoryLaw
 INVARIANT Outcome
+INVARIANT ExecRegistryOnly
 INVARIANT SpecCarriesNothing
 INVARIANT NeverReplaced
 INVARIANT ReadBack
